@@ -407,6 +407,79 @@ def make_realserial(method, sizes):
     return realserial
 
 
+def realudp_late(u: int, v: bytes) -> bool:
+    """the REAL ModbusUdpClient over fake datagram sockets: the reply to call 1 arrives after its time-out (so
+    recvfrom raises socket.timeout first and the datagram is queued on THAT socket afterwards); call 2, answered in
+    time by a healthy server, must return its own reply (or an error object) -- never the late reply of call 1"""
+    import socket as _socket
+    import pymodbus.client.sync as CS
+    import pymodbus.factory as F
+    assume(len(v) == 4)
+    assume(1 <= u <= 247)
+    assume(v[0] * 256 + v[1] != v[2] * 256 + v[3])
+    socks = []
+
+    class Sock(object):
+        def __init__(self, *a, **k):
+            self.queue = []
+            self.late = None
+            self.n = 0
+            socks.append(self)
+
+        def settimeout(self, t):
+            pass
+
+        def sendto(self, data, addr):
+            k = len([1 for s in socks for _ in range(s.n)])
+            self.n += 1
+            tidb = bytes([data[0], data[1]])
+            if k == 0:
+                # first request of the run: its reply will come late
+                self.late = adu.ref_adu("tcp", bytes([3, 2, v[0], v[1]]), u, tidb)
+            else:
+                self.queue.append(adu.ref_adu("tcp", bytes([3, 2, v[2], v[3]]), u, tidb))
+            return len(data)
+
+        def recvfrom(self, size):
+            if self.queue:
+                return self.queue.pop(0), ("h", 502)
+            if self.late is not None:
+                # time-out now; the late datagram is delivered to this socket right afterwards
+                self.queue.append(self.late)
+                self.late = None
+            raise _socket.timeout("timed out")
+
+        def close(self):
+            pass
+    old = CS.socket.socket
+    CS.socket.socket = Sock
+    try:
+        cl = CS.ModbusUdpClient("127.0.0.1", timeout=1)
+        r1 = F.ReadHoldingRegistersRequest(0, 1)
+        r1.unit_id = u
+        try:
+            first = cl.execute(r1)
+        except Exception as e:
+            known("KF-client-raises-on-garbage-reply", raised_in_decode(e))
+            explain("call 1 raised %s", type(e).__name__)
+            return False
+        if not is_error_object(first):
+            explain("a call whose reply did not arrive in time returned %r", first)
+            return False
+        r2 = F.ReadHoldingRegistersRequest(1, 1)
+        r2.unit_id = u
+        try:
+            got = cl.execute(r2)
+        except Exception as e:
+            explain("call 2 raised %s", type(e).__name__)
+            return False
+        if is_error_object(got):
+            return True
+        return same(list(got.registers), [v[2] * 256 + v[3]], "reply returned by the call after the time-out")
+    finally:
+        CS.socket.socket = old
+
+
 def deadline_tcp(steps: bytes) -> bool:
     """ModbusTcpClient._recv deadline loop with a symbolic clock and a socket that never delivers"""
     import pymodbus.client.sync as CS
@@ -492,6 +565,8 @@ def obligations(tier):
         sizes = (257,) if (tier == "quick" and method == "rtu") else (0, 1, 255, 256, 257, 513, 600)
         out.append(Obl("realserial.%s" % method, make_realserial(method, sizes), timeout=T, contracts=contracts[method], lemmas=lem[method],
                        bounds="real ModbusSerialClient(%s) over a fake serial port: %s stale bytes waiting when the request is sent, healthy device afterwards; unit and register value symbolic" % (method, "/".join(map(str, sizes)))))
+    out.append(Obl("realudp.late-reply", realudp_late, timeout=T,
+                   bounds="real ModbusUdpClient over fake datagram sockets: call 1 times out, its reply is delivered to that socket afterwards; call 2 is answered in time; unit and both register values symbolic"))
     out.append(Obl("deadline.tcp", deadline_tcp, timeout=T,
                    bounds="ModbusTcpClient._recv(8), timeout 4 s, silent socket, clock advancing by timeout/4 + a symbolic extra (12 symbolic steps)"))
     return out
